@@ -2,6 +2,9 @@
 
 
 def generate(G):
+    G.ob("c12_paused_and_returned", "C12", "paused_and_returned", "c12::paused_and_returned(s)", unwind=7, tier="quick",
+         skeleton={"what": "a paused parameter used directly and through a clone (no gradient either way); a loss built from the handle Model::forward returned deposits the parameter gradients"},
+         domains="D4 / D2")
     for e, tier, what in [("None", "quick", "unedited (a*b + a) * b"),
                           ("CloneOperands", "quick", "every operand replaced by a fresh clone"),
                           ("DropAfterUse", "quick", "intermediate handles really dropped after their last use"),
